@@ -358,6 +358,8 @@ def check(spec):
         inner = getattr(getattr(a, "base", None), "base", None)
         if type(a).__name__.startswith("Adjoint") and type(getattr(a, "base", None)).__name__.startswith("Adjoint") and type(b) is type(inner):
             return bad("capture:type-changed:adjoint-of-adjoint-collapsed", repr(b)[:200], repr(a)[:200])
+        if type(a).__name__.startswith("Adjoint") and type(getattr(a, "base", None)).__name__.startswith("Controlled") and type(b) is type(a.base):
+            return bad("capture:type-changed:adjoint-of-controlled-becomes-controlled-adjoint", repr(b)[:200], repr(a)[:200])
         ww = getattr(a, "work_wires", None)
         if ww is not None and len(ww) and type(b) is type(a) and len(getattr(b, "work_wires", None) or ()) == 0 and list(a.wires)[:len(b.wires)] == list(b.wires):
             return bad("capture:controlled-work-wires-dropped", repr(b)[:200], repr(a)[:200], op=lab)
